@@ -268,6 +268,11 @@ def hunts(quick, focus, timeout):
             else:
                 pre = [[o], ['WCA'], ['PSO'], [o, o]][i % 4]
             cfg['prelude'] = [{'optimizer': p, 'hyperparams': hyperparams(p, 'default', rnd, cfg['n_agents'])} for p in pre]
+            if i % 3 == 2:
+                # the earlier tasks optimised ANOTHER objective, with another iteration count (the general histories of Analysis/Tasks.v)
+                for k, pr in enumerate(cfg['prelude']):
+                    pr['objective'] = [x for x in ('negative', 'shifted', 'sphere', 'linear') if x != c['objective']][(i // 3 + k) % 3]
+                    pr['n_iterations'] = [2, 7, 1][(i // 3 + k) % 3]
             if any(p['optimizer'] == 'WCA' for p in cfg['prelude']) and cfg['n_agents'] < 2:
                 cfg['n_agents'] = 2
             cfg['n_agents'] = max([cfg['n_agents']] + [WR[p['optimizer']]['min_agents'] for p in cfg['prelude']])
